@@ -54,7 +54,11 @@ class Runner:
         out = []
         for t in self.impl.trees:
             def w(n):
-                return [id(n), id(n.data), repr(n.data_id), getattr(n, "kind", None), json.dumps(n.meta, sort_keys=True, default=str),
+                try:
+                    par = id(n.up())
+                except Exception as e:  # noqa
+                    par = repr(type(e))
+                return [id(n), id(n.data), repr(n.data_id), getattr(n, "kind", None), json.dumps(n.meta, sort_keys=True, default=str), par,
                         [w(c) for c in n.children]]
             out.append([[w(c) for c in t.children], t.count, t.count_unique])
         return out
@@ -174,7 +178,7 @@ def befores(rng, impl, ti, parent_path, *, malformed=False):
     return c
 
 
-def random_op(rng, impl, ti, *, labels, malformed=0.1, typed=False, ops=None, did_rate=0.15, dids=(1001, 1002, "x", "y", 7)):
+def random_op(rng, impl, ti, *, labels, malformed=0.1, typed=False, ops=None, did_rate=0.15, dids=(1001, 1002, "x", "y", 7, 0, "")):
     """one random (mostly valid) op on tree ti, based on the implementation's current shape"""
     t = impl.trees[ti]
     paths = paths_of(t)
@@ -292,10 +296,10 @@ def random_op(rng, impl, ti, *, labels, malformed=0.1, typed=False, ops=None, di
             op["a"] = rng.choice(labels)
         elif r < 0.7:
             op["a"] = rng.choice(labels)
-            op["did"] = rng.choice([1001, 1002, "x", 7])
+            op["did"] = rng.choice([1001, 1002, "x", 7, 0, ""])
         elif r < 0.85:
             op["a"] = None
-            op["did"] = rng.choice([1001, 1002, "x", 7])
+            op["did"] = rng.choice([1001, 1002, "x", 7, 0, ""])
         else:
             op["a"] = rng.choice([x for x in labels if isinstance(x, int) and x < 12] or labels)
             op["via"] = "rename"
